@@ -1256,6 +1256,50 @@ impl World {
 			form.tag()
 		);
 		out.line(&lhs, &res);
+		// the STORED form of an admitted single-kernel transaction (`convert_tx_v2`): "features and commit"
+		// inputs whose features are the looked-up ones, whatever the submitted form claimed
+		if res == "ok" && tx.kernels().len() == 1 {
+			let entry = self
+				.pool
+				.txpool
+				.entries
+				.iter()
+				.chain(self.pool.stempool.entries.iter())
+				.find(|e| e.tx.kernels() == tx.kernels())
+				.cloned();
+			if let Some(e) = entry {
+				let stored = match e.tx.inputs() {
+					Inputs::FeaturesAndCommit(v) => {
+						let mut items: Vec<(usize, bool)> =
+							v.iter().map(|i| (self.oid(&i.commitment()).unwrap_or(999_999), i.is_coinbase())).collect();
+						items.sort();
+						format!("[{}]", items.iter().map(|(o, cb)| format!("{}:o{}", if *cb { 1 } else { 0 }, o)).collect::<Vec<_>>().join(","))
+					}
+					Inputs::CommitOnly(_) => "commit-only".to_string(),
+				};
+				out.line(&format!("pool stored t{}", t), &stored);
+				self.stat(&format!("stored-form:submitted-as-{}:{}", form.tag(), if stored == "commit-only" { "commit-only" } else { "features-and-commit" }));
+				// oracle on the implementation: every stored feature byte is the chain's (pool-created: plain)
+				if let Inputs::FeaturesAndCommit(v) = e.tx.inputs() {
+					for i in v.iter() {
+						let truth = match self.node.get_unspent(i.commitment()) {
+							Ok(Some((oi, _))) => oi.features.is_coinbase(),
+							_ => false,
+						};
+						if truth != i.is_coinbase() {
+							out.raw(&format!(
+								"#ORACLE-FAIL C14 stored-input-features-wrong hist={} {}: input o{} stored as {} but the chain says {}",
+								self.name,
+								lhs,
+								self.oid(&i.commitment()).unwrap_or(999_999),
+								if i.is_coinbase() { "coinbase" } else { "plain" },
+								if truth { "coinbase" } else { "plain" }
+							));
+						}
+					}
+				}
+			}
+		}
 		let kind = self.txs[t].kind.clone();
 		let path = if stem_path { "stem" } else { "fluff" };
 		self.stat(&format!("submit:{}:{}", kind, res));
@@ -5052,7 +5096,7 @@ fn main() {
 			}
 		}
 	}
-	if mode == "all" || mode == "scenarios" || mode == "part1" || mode == "part2" {
+	if mode == "all" || mode == "scenarios" || mode == "part1" || mode == "part2" || mode == "random" {
 		jobs.push(("evict-witness".into(), Box::new(|w, o, t| scenario_evict_witness(w, o, t))));
 		jobs.push(("evict-chain".into(), Box::new(|w, o, t| scenario_evict_chain(w, o, t))));
 		jobs.push(("low-fee-at-capacity".into(), Box::new(|w, o, t| scenario_low_fee_at_capacity(w, o, t))));
@@ -5088,10 +5132,14 @@ fn main() {
 	}
 	// the scenarios in two registered runs (`part1`, `part2`) so that each stays inside the quick budget
 	const PART1: [&str; 9] = ["evict-witness", "evict-chain", "low-fee-at-capacity", "full-aggregate", "aggregate-low-fee", "evict-children", "evict-trees", "evict-heavy-chain", "hf-boundaries"];
+	// (three of the scenarios run with the random histories: run pool3)
+	const PART3: [&str; 3] = ["mine-limit", "fee-shift", "stempool-reconcile"];
 	if mode == "part1" {
 		jobs.retain(|(n, _)| PART1.iter().any(|p| n.starts_with(p)));
 	} else if mode == "part2" {
-		jobs.retain(|(n, _)| !PART1.iter().any(|p| n.starts_with(p)));
+		jobs.retain(|(n, _)| !PART1.iter().any(|p| n.starts_with(p)) && !PART3.iter().any(|p| n.starts_with(p)));
+	} else if mode == "random" {
+		jobs.retain(|(n, _)| PART3.iter().any(|p| n.starts_with(p)));
 	}
 	if mode == "all" || mode == "random" {
 		let nh: usize = args.get(2).and_then(|s| s.parse().ok()).unwrap_or(if thorough { 16 } else { 4 });
